@@ -573,6 +573,12 @@ func (c *Channel) removeFromInFlightPQ(msg *Message) {
 		c.inFlightMutex.Unlock()
 		return
 	}
+	if msg.index >= len(c.inFlightPQ) || c.inFlightPQ[msg.index] != msg {
+		// the pqueue was replaced (Empty) after this message was popped from
+		// the in-flight map, its index refers to the old one
+		c.inFlightMutex.Unlock()
+		return
+	}
 	c.inFlightPQ.Remove(msg.index)
 	c.inFlightMutex.Unlock()
 }
